@@ -41,7 +41,7 @@ EncList(xs) == IF xs = <<>> THEN 1 ELSE EncList(SubSeq(xs, 1, Len(xs) - 1)) * 10
 EncMatN(x) == x
 EncMatE(e) == 1000 + e
 EncMatC == 2000
-ApplyF(f, p, x) == CASE f = "inc" -> x + p [] f = "mul" -> x * p [] f = "const" -> p [] f = "b2i" -> x [] OTHER -> x
+ApplyF(f, p, x) == CASE f = "inc" -> x + p [] f = "mul" -> x * p [] f = "const" -> p [] f = "mod" -> x % p [] f = "b2i" -> x [] OTHER -> x
 ApplyP(f, p, x) == CASE f = "lt" -> x < p [] f = "ge" -> x >= p [] f = "even" -> x % 2 = 0 [] f = "true" -> TRUE [] f = "eq" -> x = p
                      [] f = "false" -> FALSE [] f = "nfalse" -> TRUE
                      [] f = "nlt" -> ~(x < p) [] f = "nge" -> ~(x >= p) [] f = "neven" -> x % 2 # 0 [] f = "ntrue" -> FALSE [] f = "neq" -> x # p [] OTHER -> FALSE
@@ -110,18 +110,24 @@ CallNext(h, o, x) ==
          [] hd.k = "fwd" -> CallNext(h, hd.a, x)
          [] hd.k = "tosbj" -> SubjNext(h, hd.a, x)
          [] OTHER -> OnNext(h, o, hd, x)
+\* error() / complete(): take the next slot (the arbiter between racing terminals); whoever emptied it clears the other
+\* terminal slot, takes its own and delivers
 CallError(h, o, x) ==
-  IF h.stuck # "" THEN h ELSE IF ~h.obs[o].e THEN [h EXCEPT !.obs[o].n = FALSE, !.obs[o].c = FALSE]
-  ELSE LET h1 == [h EXCEPT !.obs[o].n = FALSE, !.obs[o].c = FALSE, !.obs[o].e = FALSE]     \* error(): clear next and complete, take the error slot
+  IF h.stuck # "" \/ ~h.obs[o].n THEN h
+  ELSE LET had == h.obs[o].e
+           h1 == [h EXCEPT !.obs[o].n = FALSE, !.obs[o].c = FALSE, !.obs[o].e = FALSE]
            hd == h.obs[o].hd IN
+       IF ~had THEN h1 ELSE
        CASE hd.k = "sink" -> Emit(h1, Ev("cb", hd.a, "e", x))
          [] hd.k = "fwd" -> CallError(h1, hd.a, x)
          [] hd.k = "tosbj" -> SubjError(h1, hd.a, x)
          [] OTHER -> OnError(h1, o, hd, x)
 CallComplete(h, o) ==
-  IF h.stuck # "" THEN h ELSE IF ~h.obs[o].c THEN [h EXCEPT !.obs[o].n = FALSE, !.obs[o].e = FALSE]
-  ELSE LET h1 == [h EXCEPT !.obs[o].n = FALSE, !.obs[o].e = FALSE, !.obs[o].c = FALSE]     \* complete(): clear next and error, take the complete slot
+  IF h.stuck # "" \/ ~h.obs[o].n THEN h
+  ELSE LET had == h.obs[o].c
+           h1 == [h EXCEPT !.obs[o].n = FALSE, !.obs[o].e = FALSE, !.obs[o].c = FALSE]
            hd == h.obs[o].hd IN
+       IF ~had THEN h1 ELSE
        CASE hd.k = "sink" -> Emit(h1, Ev("cb", hd.a, "c", 0))
          [] hd.k = "fwd" -> CallComplete(h1, hd.a)
          [] hd.k = "tosbj" -> SubjComplete(h1, hd.a)
